@@ -227,6 +227,40 @@ class Prover:
             extra.append(z3.Not(neg))
         return False
 
+    def prove_many(self, name, viols, inputs=None, replay=None, quantities=None, timeout_s=None):
+        """many small obligations of one kind (e.g. one per explored path): light-weight loop, the first
+        satisfiable one goes through the full prove() machinery (replay, known findings)"""
+        ok = True
+        t0 = time.time()
+        try:
+            for k, v in enumerate(viols):
+                v = core.as_z3_bool(v)
+                s = z3.Solver()                 # a fresh (non-incremental) solver is several times faster on small QF_BV queries
+                s.set('timeout', int((timeout_s or self.timeout) * 1000))
+                for a in self.assumptions:
+                    s.add(a)
+                for a in ctx.assumptions:
+                    s.add(a)
+                s.add(v)
+                r = s.check()
+                self.res['queries'] += 1
+                if r == z3.unsat:
+                    self.res['obligations'] += 1
+                    self.res['discharged'] += 1
+                    self.res['nontrivial'] += 1
+                    if len(self.res['samples']) < 2:
+                        self.res['samples'].append({'config': self.config, 'obligation': '%s [%d/%d]' % (name, k + 1, len(viols)),
+                                                    'query': v.sexpr()[:400] if term_size(v, 3000) < 3000 else '(large term)'})
+                else:
+                    self.res['solver_time'] += time.time() - t0
+                    t0 = time.time()
+                    if self.prove('%s [%d/%d]' % (name, k + 1, len(viols)), v, inputs=inputs, replay=replay, quantities=quantities,
+                                  timeout_s=timeout_s) is not True:
+                        ok = False
+        finally:
+            self.res['solver_time'] += time.time() - t0
+        return ok
+
     def _ns(self, quantities, m=None):
         ns = {'abs': abs, 'min': min, 'max': max}
         for k, v in (quantities or {}).items():
@@ -484,6 +518,7 @@ def finish(prop, level, results, args, t0, *, design_ref='', assumptions=(), bou
         'technique': technique,
         'design_ref': design_ref,
         'notes': notes,
+        'slowest_configurations': [[r['config'], round(r.get('wall', 0), 1)] for r in sorted(results, key=lambda r: -r.get('wall', 0))[:8]],
         'harness_errors': errors[:20],
         'exhaustive': False,
     }
